@@ -19,9 +19,9 @@ def e2e_replays(ctx):
             first = l.split(" first=")[1].split(" locked=")[0][:160]
             locked = l.split(" locked=")[1].split(" lock=[")[0][:260]
             res.append({"scenario": name, "first_build": first, "second_build_locked": locked})
-            ctx.count("e2e.%s.locked=%s" % (name, "ok" if locked == "ok" else "fails"))
+            ctx.count("e2e.%s.locked=%s" % (name, "ok" if locked.startswith("ok") else "fails"))
     ctx.extra["e2e_replays"] = res or [out[-300:]]
-    ctx.log("e2e replays: " + ", ".join("%s=%s" % (r["scenario"], "ok" if r["second_build_locked"] == "ok" else "LOCK-NOT-REREAD") for r in res))
+    ctx.log("e2e replays: " + ", ".join("%s=%s" % (r["scenario"], r["first_build"] + "/" + r["second_build_locked"] if r["second_build_locked"].startswith("ok") else "LOCK-NOT-REREAD") for r in res))
 
 
 SPEC = dict(
@@ -40,7 +40,8 @@ SPEC = dict(
          "a package named like another one's unique string). Each case: real Lock::from_graph -> "
          "toml::ser::to_string_pretty -> file -> Lock::from_path -> to_graph. agree: model writer = real records, "
          "TOML layer identity, model reader = real graph exactly, canonical equivalence = real `==`, model round "
-         "trip equivalent when WFGraph. prop: WFGraph g -> re-read graph == g (real `==` up to node numbering). "
+         "trip equivalent when WFGraph. prop: AssumedGraph g (class (a) conjuncts of WFGraph only) -> re-read graph == g (real `==` up to node "
+         "numbering); class (b) graphs whose round trip fails are the known findings C20-<why>. "
          "non-trivial = well-formed graph with at least one edge; corpus = the not_wf_witnesses of Props/C20.lean",
     trusted_base=["Model/Lock.lean: Display/FromStr of source::Pinned (member/path/git/ipfs/registry), PinnedId hex, "
                   "Salt hex, pkg_dep_line / parse_pkg_dep_line, names_requiring_disambiguation, PkgLock::from_node, "
@@ -60,12 +61,11 @@ SPEC = dict(
         "`pkg::validate_dep_manifest` (graph node name == the dependency's manifest project name); the same covers "
         "'?' in a registry package name",
         "at most one edge per ordered pair of packages: `pkg::fetch_deps` adds edges with `update_edge` only",
-        "CANDIDATE FINDINGS (outside WFGraph, reachable from a real manifest, round trip fails on the real code — "
-        "corpus/c20.txt, lines W6 W7 W11 and P*): '#' in a git branch/tag name; '?' in a git url; git `rev = <short or "
-        "symbolic>` is re-read as Rev(<full commit>) (different Pinned, different PinnedId); two git nodes differing "
-        "only in the Rev string collapse into one record; ')' in a dependency name (quoted TOML key with `package = ..`); "
-        "'(' in a git url/branch of a package that needs disambiguation; registry `namespace = \"\"` (Domain(\"\") -> Flat), "
-        "'#' / '!' / trailing whitespace in a registry namespace; CIDv1 registry entries (`validate_cid` is v0-only)",
+        "KNOWN FINDINGS (class (b): reachable from a real manifest, the real round trip fails; NOT excused by the "
+        "predicate: such lines get prop=0 why=<conjunct> and are matched by known_findings.json ids C20-<conjunct>, "
+        "proposed entries in checks/c20_known_findings.json): dep-name-paren, git-ref-hash, git-url-qmark, "
+        "paren-in-source, git-rev-not-commit, duplicate-node, reg-ns-empty, reg-ns-chars, reg-cid-not-v0. "
+        "End-to-end (manifest -> BuildPlan -> --locked) confirmations: coverage.e2e_replays",
     ],
 )
 
